@@ -46,8 +46,24 @@ func RandomUniformBinaryTree(nbtips int, rooted bool) (*Tree, error) {
 			}
 			t.SetRoot(n2)
 		default:
-			// Where to insert the new tip
-			i_edge := rand.Intn(len(edges))
+			// Where to insert the new tip: on any edge and,
+			// for a rooted tree, also above the root
+			nchoices := len(edges)
+			if rooted {
+				nchoices++
+			}
+			i_edge := rand.Intn(nchoices)
+			if i_edge == len(edges) {
+				newroot := t.NewNode()
+				newedge := t.ConnectNodes(newroot, t.Root())
+				newedge2 := t.ConnectNodes(newroot, n)
+				t.SetRoot(newroot)
+				newedge.SetLength(gostats.Exp(lambda))
+				newedge2.SetLength(gostats.Exp(lambda))
+				edges = append(edges, newedge)
+				edges = append(edges, newedge2)
+				continue
+			}
 			e := edges[i_edge]
 			newedge, newedge2, _, err := t.GraftTipOnEdge(n, e)
 			e.SetLength(gostats.Exp(lambda))
